@@ -299,6 +299,15 @@ def logic(op, a, b):
         raise Unsupported("logic on non-bool operands")
     if isinstance(a, bool) and isinstance(b, bool):
         return {"&&": a and b, "||": a or b, "^": a != b}[op]
+    # one concrete operand: return the other one untouched (no rewriting - the reference hands the same term on)
+    for c, other in ((a, b), (b, a)):
+        if isinstance(c, bool):
+            if op == "&&":
+                return other if c else False
+            if op == "||":
+                return True if c else other
+            if op == "^":
+                return logic_not(other) if c else other
     x, y = bl(a), bl(b)
     return z3.simplify({"&&": z3.And(x, y), "||": z3.Or(x, y), "^": z3.Xor(x, y)}[op])
 
